@@ -358,6 +358,10 @@ def check_result(cfg, rr: RunResult, out: Outcome, tag: str, step: int, fault=No
     rhs = ref.cell_volume * (b - a).ravel(order="F")
     imb = float(np.max(np.abs(ref.outflow(u) - rhs)))
     rmax = max([r for _, r in seam.residuals if r == r] + [0.0])
+    if cfg["linear_solver"] == "direct":
+        # the precision of a direct solve is round-off: a large measured residual (e.g. a stale factorisation
+        # applied to another matrix) is a defect and must not widen the tolerance
+        rmax = min(rmax, 1e-10 * (float(np.max(np.abs(rhs))) + 1e-300))
     scale_m = float(np.max(np.abs(rhs))) + float(np.max(np.abs(u)) if nf else 0.0) * max(ref.face_area) + 1e-300
     tol_m = 1e-9 * scale_m + 50.0 * nc * rmax + float(os.environ.get("C04_AMP", "1e-12")) * seam.amplitude * max(ref.face_area) * max(1, ref.dim)
     if seam.amplitude * max(ref.face_area) > 1e3 * scale_m:
@@ -448,6 +452,7 @@ class C04Engine(Engine):
     chunk = 2
     run_timeout_s = 240.0
     determinism_sample = 4
+    isolate_runs = True
     rule = ("One evaluation = one sampled solver configuration (method x formulation x back-end x l1/mobility mode x "
             "Anderson x weights x grid x mass pair x tolerances) with ALL its fault points enumerated: fault-free run, "
             "then one run per (inner linear solve index k=1..n-1) x (site: linear_solve entry, back-end solve, solver "
@@ -525,8 +530,15 @@ class C04Engine(Engine):
         env = {"tracemalloc": "real" if e.random() < 0.1 else "stub", "np_seed": e.randint(0, 2**31)}
         if e.random() < 0.5:
             env["clock_jumps"] = [[e.randint(0, 60), e.choice([-3600.0, -1.0, 0.0, 86400.0])] for _ in range(e.randint(1, 3))]
-        return {"engine": self.name, "seed": seed, "config": cfg, "faults": "all", "env": env,
+        case = {"engine": self.name, "seed": seed, "config": cfg, "faults": "all", "env": env,
                 "forms": substream(seed, "workload").random() < 0.35}
+        h = substream(seed, "schedule")
+        if h.random() < 0.35:
+            # a history: another solver object was built and used on a grid of the same shape earlier in the process
+            case["prelude"] = {"voxel_size": [h.choice([0.25, 0.5, 1.0, 2.0, 4.0]) for _ in range(dim)],
+                               "method": h.choice(["newton", "bregman"]),
+                               "weight": h.choice([None, {"kind": "const", "val": 2.0}])}
+        return case
 
     # ------------------------------------------------------------------ execution
     def execute(self, case: dict) -> Outcome:
@@ -535,6 +547,16 @@ class C04Engine(Engine):
         env = case.get("env", {})
         out.event(seed=case.get("seed"), config=cfg)
         step = 0
+        if case.get("prelude"):
+            pre = {**cfg, "voxel_size": case["prelude"]["voxel_size"], "method": case["prelude"]["method"], "num_iter": 2}
+            pre.pop("update_every", None)
+            if case["prelude"].get("weight"):
+                pre["weight"] = case["prelude"]["weight"]
+            else:
+                pre.pop("weight", None)
+            run_solver(pre, None, env=env)
+            out.counters["op:prelude-run"] += 1
+            out.counters["fault:history-other-solver-same-shape"] += 1
         base = run_solver(cfg, None, env=env)
         out.counters["op:fault-free-run"] += 1
         out.sim_time += base.clock.presented
@@ -595,8 +617,14 @@ class C04Engine(Engine):
             out.counters[f"fault:solve-raise-{f['site']}"] += 1
             out.counters[f"fault:exc-{f['exc']}"] += 1
             if rr.ret is None:
-                # initial Darcy solve or Bregman's final pressure solve: outside the handler, no result returned
-                out.counters["probe:fault-propagated-no-result"] += 1
+                in_loop = 1 <= f["occurrence"] <= (n - 1 if cfg["method"] == "newton" else n - 2)
+                if in_loop:
+                    # an inner step failed inside the iteration: a (non-converged) result must still be returned
+                    out.violate("C04.R", f"inner-failure-escapes:{rr.exc}", step, fault=f, config=cfg,
+                                note="the solve of a loop iteration failed and the call raised instead of returning the last valid iterate")
+                else:
+                    # initial Darcy solve or Bregman's final pressure solve: outside the handler, no result returned
+                    out.counters["probe:fault-propagated-no-result"] += 1
                 out.event(kind="fault", fault=f, fired=True, exc=rr.exc)
                 continue
             obs = check_result(cfg, rr, out, "faulted", step, fault=f)
@@ -655,9 +683,9 @@ class C04Engine(Engine):
     def shrink_candidates(self, case):
         cfg = case["config"]
         if case["faults"] == "all":
-            # reduce to single fault points
-            base = run_solver(cfg, None, env=case.get("env", {}))
-            n = base.seam.entries if base.seam else 0
+            # reduce to single fault points (never execute library code here: the minimiser runs in the pristine
+            # parent process, every execution happens in forks)
+            n = cfg["num_iter"] + 2
             seed = case.get("seed", 0)
             for k in range(0, n):
                 for si, site in enumerate(SITES):
@@ -668,6 +696,10 @@ class C04Engine(Engine):
             c = copy.deepcopy(case)
             c["faults"] = []
             c["forms"] = False
+            yield c
+        if case.get("prelude"):
+            c = copy.deepcopy(case)
+            c.pop("prelude")
             yield c
         if case.get("forms"):
             c = copy.deepcopy(case)
